@@ -59,7 +59,7 @@ def plan(tier, seed):
                           'string_constants_checked': 100000, 'hostile_strings_emitted': 60000, 'loads_audited': 10000,
                           'call_events_checked': 80000, 'hostile_queries': 100000, 'renamings_compared': 3000,
                           'hostile_heads_rejected': 1000}}
-    return {'n': 300000, 'deadline': 540,
+    return {'n': 560000, 'deadline': 540,
             'floor': {'distinct_nontrivial': 30000, 'programs_compiled': 50000, 'ast_nodes_checked': 5000000,
                       'string_constants_checked': 500000, 'hostile_strings_emitted': 250000, 'loads_audited': 50000,
                       'call_events_checked': 300000, 'hostile_queries': 300000, 'renamings_compared': 15000,
